@@ -49,6 +49,7 @@ type End struct {
 	sendBusy, recvBusy, closeBusy int
 	NSend, NRecv, NClose          int
 	NSendFault                    int
+	NSendClosed                   int   // Send calls made after this end had been closed
 	FaultedSends                  []int // indexes (1-based, as NSend) of the Send calls that reported an injected error
 	Overlaps                      []string
 
@@ -137,6 +138,7 @@ func (e *End) Send(b []byte) error {
 	var err error
 	switch {
 	case e.closed:
+		e.NSendClosed++ // handed to an end that is already closed: nothing is transmitted
 		err = fmt.Errorf("send on closed channel end %s", e.Name)
 	case f == fSendErrLost:
 		e.NSendFault++
